@@ -9,38 +9,48 @@ Local Open Scope nat_scope.
 
 (* ---- generic list facts ---- *)
 
-Lemma set_nth_cons0 : forall x (cs : list nat) a, set_nth (x :: cs) 0 a = a :: cs.
+Section SetNth.
+Variable A : Type.
+Implicit Types (cs : list A) (a b x : A).
+
+Lemma set_nth_cons0 : forall x cs a, set_nth (x :: cs) 0 a = a :: cs.
 Proof. reflexivity. Qed.
-Lemma set_nth_consS : forall x (cs : list nat) k a, set_nth (x :: cs) (S k) a = x :: set_nth cs k a.
+Lemma set_nth_consS : forall x cs k a, set_nth (x :: cs) (S k) a = x :: set_nth cs k a.
 Proof. reflexivity. Qed.
 
-Lemma set_nth_same : forall (cs : list nat) k a, nth_error cs k = Some a -> set_nth cs k a = cs.
+Lemma set_nth_same : forall cs k a, nth_error cs k = Some a -> set_nth cs k a = cs.
 Proof.
   induction cs as [|x cs IH]; intros [|k] a H; cbn [nth_error] in H; try discriminate.
   - inversion H. reflexivity.
   - rewrite set_nth_consS. f_equal. apply IH. assumption.
 Qed.
 
-Lemma set_nth_twice : forall (cs : list nat) k a b, k < length cs -> set_nth (set_nth cs k a) k b = set_nth cs k b.
+Lemma set_nth_twice : forall cs k a b, k < length cs -> set_nth (set_nth cs k a) k b = set_nth cs k b.
 Proof.
   induction cs as [|x cs IH]; intros [|k] a b H; cbn [length] in H; try lia.
   - reflexivity.
   - rewrite !set_nth_consS. f_equal. apply IH. lia.
 Qed.
 
-Lemma nth_error_set_nth : forall (cs : list nat) k a, k < length cs -> nth_error (set_nth cs k a) k = Some a.
+Lemma nth_error_set_nth : forall cs k a, k < length cs -> nth_error (set_nth cs k a) k = Some a.
 Proof.
   induction cs as [|x cs IH]; intros [|k] a H; cbn [length] in H; try lia.
   - reflexivity.
   - rewrite set_nth_consS. cbn [nth_error]. apply IH. lia.
 Qed.
 
-Lemma set_nth_length : forall (cs : list nat) k a, k < length cs -> length (set_nth cs k a) = length cs.
+Lemma set_nth_length : forall cs k a, k < length cs -> length (set_nth cs k a) = length cs.
 Proof.
   induction cs as [|x cs IH]; intros [|k] a H; cbn [length] in H; try lia.
   - reflexivity.
   - rewrite set_nth_consS. cbn [length]. f_equal. apply IH. lia.
 Qed.
+End SetNth.
+Arguments set_nth_same {A} cs k a _.
+Arguments set_nth_twice {A} cs k a b _.
+Arguments nth_error_set_nth {A} cs k a _.
+Arguments set_nth_length {A} cs k a _.
+Arguments set_nth_consS {A} x cs k a.
 
 Section F2.
 Variables (A B : Type) (P : A -> B -> Prop).
@@ -74,7 +84,7 @@ Lemma Forall2_imp : forall (A B : Type) (P Q : A -> B -> Prop) l l',
   (forall a p, P a p -> Q a p) -> Forall2 P l l' -> Forall2 Q l l'.
 Proof. intros A B P Q l l' Himp H. induction H; constructor; auto. Qed.
 
-Lemma Forall2_set : forall (P : nat -> cpos -> Prop) cs ps k a p,
+Lemma Forall2_set : forall (P : link -> cpos -> Prop) cs ps k a p,
   Forall2 P cs ps -> P a p -> Forall2 P (set_nth cs k a) (set_pos ps k p).
 Proof.
   intros P cs ps k a p H Hap. revert k. induction H as [|x y cs ps Hxy H IH]; intros k.
@@ -123,8 +133,24 @@ Notation next_ok := (MlinkBasics.next_ok T zero).
 Notation step := (step T zero).
 Notation astep := (astep T zero).
 
-Definition crel (h : heap) (ch : list nat) (b : nat) (p : cpos) : Prop :=
-  b < length h /\ match p with At j => nth_error ch j = Some b | Stale => lnk h b = Ptr b end.
+(* a Cursor value against its reference position: a nil pred is NoPred; otherwise the pred is a
+   cell of the heap -- the chain cell number j for At j, a self-linked cell for Stale *)
+Definition crel (h : heap) (ch : list nat) (c : link) (p : cpos) : Prop :=
+  match c with
+  | Nil => p = NoPred
+  | Ptr b => b < length h /\
+             match p with At j => nth_error ch j = Some b | Stale => lnk h b = Ptr b | NoPred => False end
+  end.
+
+(* crel is kept by every change of heap and chain that keeps it for the proper preds *)
+Lemma crel_lift : forall h ch h' ch' (f : cpos -> cpos), f NoPred = NoPred ->
+  (forall b p, p <> NoPred -> crel h ch (Ptr b) p -> crel h' ch' (Ptr b) (f p)) ->
+  forall c p, crel h ch c p -> crel h' ch' c (f p).
+Proof.
+  intros h ch h' ch' f Hf H [|b] p Hc.
+  - cbn [crel] in *. subst p. assumption.
+  - apply H; [|assumption]. intros ->. destruct Hc as [_ []].
+Qed.
 
 (* the refinement relation: chain, contents, and every cursor handed out so far *)
 Definition R (m : mstate T) (s : astate T) : Prop :=
@@ -151,9 +177,10 @@ Proof. intros. apply map_ext_in. assumption. Qed.
 
 (* ---- what R says about one cursor ---- *)
 
-Lemma R_cursor : forall h cs l ps k a, R (h, cs) (l, ps) -> nth_error cs k = Some a ->
+Lemma R_cursor : forall h cs l ps k a, R (h, cs) (l, ps) -> nth_error cs k = Some (Ptr a) ->
   exists p, nth_error ps k = Some p /\ a < length h /\
     match p with
+    | NoPred => False
     | Stale => lnk h a = Ptr a
     | At i => exists pre suf, wf h (pre ++ a :: suf) /\ length pre = i /\
                 l = map (vl h) (tl (pre ++ [a])) ++ map (vl h) suf /\
@@ -162,18 +189,24 @@ Lemma R_cursor : forall h cs l ps k a, R (h, cs) (l, ps) -> nth_error cs k = Som
 Proof.
   intros h cs l ps k a [ch [Hwf [Hl HF]]] Hk. cbn [fst snd] in *.
   destruct (Forall2_nth _ _ _ _ _ _ _ HF Hk) as [p [Hp [Ha Hc]]].
-  exists p. split; [assumption|]. split; [assumption|]. destruct p as [i|]; [|assumption].
+  exists p. split; [assumption|]. split; [assumption|]. destruct p as [i| |]; [|assumption|assumption].
   destruct (nth_error_split _ _ Hc) as [pre [suf [E Hlen]]]. subst ch.
   exists pre, suf. split; [assumption|]. split; [assumption|]. split; [|assumption].
   rewrite Hl, tl_zip, map_app. reflexivity.
+Qed.
+
+Lemma R_nil_cursor : forall h cs l ps k, R (h, cs) (l, ps) -> nth_error cs k = Some Nil -> nth_error ps k = Some NoPred.
+Proof.
+  intros h cs l ps k [ch [_ [_ HF]]] Hk. cbn [fst snd] in *.
+  destruct (Forall2_nth _ _ _ _ _ _ _ HF Hk) as [p [Hp Hc]]. cbn [crel] in Hc. subst p. assumption.
 Qed.
 
 Lemma R_no_cursor : forall h cs l ps k, R (h, cs) (l, ps) -> nth_error cs k = None -> nth_error ps k = None.
 Proof. intros h cs l ps k [ch [_ [_ HF]]] Hk. cbn [fst snd] in *. eapply Forall2_nth_None; eassumption. Qed.
 
 (* ---- the cursor operations, one by one ---- *)
-Definition CC (h : heap) (cs : list nat) (l : list T) (ps : list cpos) (k a i : nat) (pre suf : list nat) : Prop :=
-  nth_error cs k = Some a /\ nth_error ps k = Some (At i) /\ wf h (pre ++ a :: suf) /\ length pre = i /\
+Definition CC (h : heap) (cs : list link) (l : list T) (ps : list cpos) (k a i : nat) (pre suf : list nat) : Prop :=
+  nth_error cs k = Some (Ptr a) /\ nth_error ps k = Some (At i) /\ wf h (pre ++ a :: suf) /\ length pre = i /\
   l = map (vl h) (tl (pre ++ [a])) ++ map (vl h) suf /\ Forall2 (crel h (pre ++ a :: suf)) cs ps.
 
 Section Zl.
@@ -251,8 +284,8 @@ Qed.
 (* Next *)
 Lemma sim_next : forall h cs l ps k a i pre suf, CC h cs l ps k a i pre suf ->
   exists a' i',
-  step (h, cs) (ONext k) = ((h, set_nth cs k a'), snd (anext T k (l, ps))) /\
-  R (h, set_nth cs k a') (fst (anext T k (l, ps))) /\
+  step (h, cs) (ONext k) = ((h, set_nth cs k (Ptr a')), snd (anext T k (l, ps))) /\
+  R (h, set_nth cs k (Ptr a')) (fst (anext T k (l, ps))) /\
   nth_error (snd (fst (anext T k (l, ps)))) k = Some (At i') /\
   fst (fst (anext T k (l, ps))) = l.
 Proof.
@@ -288,7 +321,9 @@ Lemma crel_push : forall h a i pre suf, wf h (pre ++ a :: suf) -> length pre = i
   forall b p, crel h (pre ++ a :: suf) b p -> crel h' (pre ++ a :: n :: suf) b (after_push i p).
 Proof.
   intros h a i pre suf Hwf Hi.
-  intros h' n Hlen Hn Hsame b p [Hb Hc]. split; [lia|]. destruct p as [j|]; cbn [after_push].
+  intros h' n Hlen Hn Hsame. apply crel_lift; [reflexivity|].
+  intros b p Hnp [Hb Hc]. split; [lia|].
+  destruct p as [j| |]; [| |exfalso; apply Hnp; reflexivity]; cbn [after_push].
   - destruct (Nat.leb_spec j i).
     + rewrite <- Hc. apply nth_error_zip_le. lia.
     + rewrite nth_error_zip_gt by lia. rewrite nth_error_zip_gt in Hc by lia.
@@ -339,8 +374,9 @@ Proof.
       * rewrite Hl. cbn [map]. rewrite app_nil_r, (tl_zip pre a [length h]), map_app. cbn [map]. rewrite Hvn.
         rewrite (map_vl_ext h h' (tl (pre ++ [a]))) by (intros x Hx; apply Hv; apply chain_bound; auto).
         reflexivity.
-      * eapply Forall2_imp; [|exact HF]. intros b p [Hb Hc]. split; [lia|].
-        destruct p as [j|].
+      * eapply Forall2_imp; [|exact HF]. apply (crel_lift _ _ _ _ (fun q => q)); [reflexivity|].
+        intros b p Hnp [Hb Hc]. split; [lia|].
+        destruct p as [j| |]; [| |exfalso; apply Hnp; reflexivity].
         -- rewrite <- Hc. apply nth_error_zip_le.
            assert (j < length (pre ++ [a])) by (apply nth_error_Some; rewrite Hc; discriminate).
            rewrite app_length in H. cbn [length] in H. lia.
@@ -369,8 +405,9 @@ Proof.
         rewrite (map_vl_ext h h' suf').
         2:{ intros x Hx. rewrite Hv. destruct (Nat.eqb_spec x b); [exfalso; eapply Hbn; eauto|reflexivity]. }
         reflexivity.
-      * eapply Forall2_imp; [|exact HF]. intros b0 p [Hb Hc]. split; [lia|].
-        destruct p as [j|]; [assumption|]. rewrite Hsame. assumption.
+      * eapply Forall2_imp; [|exact HF]. apply (crel_lift _ _ _ _ (fun q => q)); [reflexivity|].
+        intros b0 p Hnp [Hb Hc]. split; [lia|].
+        destruct p as [j| |]; [assumption| |exfalso; apply Hnp; reflexivity]. rewrite Hsame. assumption.
 Qed.
 
 (* Remove *)
@@ -400,8 +437,9 @@ Proof.
         rewrite Hsk, (tl_zip pre a suf'), map_app.
         rewrite (map_vl_ext h h' (tl (pre ++ [a]))) by (intros; apply Hv).
         rewrite (map_vl_ext h h' suf') by (intros; apply Hv). reflexivity.
-      * eapply Forall2_map_r; [|exact HF]. intros b0 p [Hb Hc]. split; [lia|].
-        destruct p as [j|]; cbn [after_remove].
+      * eapply Forall2_map_r; [|exact HF]. apply crel_lift; [reflexivity|].
+        intros b0 p Hnp [Hb Hc]. split; [lia|].
+        destruct p as [j| |]; [| |exfalso; apply Hnp; reflexivity]; cbn [after_remove].
         -- destruct (Nat.leb_spec j i).
            ++ rewrite <- Hc. apply nth_error_zip_le. lia.
            ++ destruct (Nat.eqb_spec j (S i)) as [->|Hne].
@@ -426,8 +464,9 @@ Proof.
     rewrite (set_nth_same _ _ _ Hk). reflexivity.
   - exists (pre ++ [a]). cbn [fst snd]. split; [assumption|]. split.
     + rewrite l_firstn. apply map_ext. intros; symmetry; apply Hv.
-    + eapply Forall2_map_r; [|exact HF]. intros b0 p [Hb Hc]. split; [lia|].
-      destruct p as [j|]; cbn [after_truncate].
+    + eapply Forall2_map_r; [|exact HF]. apply crel_lift; [reflexivity|].
+      intros b0 p Hnp [Hb Hc]. split; [lia|].
+      destruct p as [j| |]; [| |exfalso; apply Hnp; reflexivity]; cbn [after_truncate].
       * destruct (Nat.leb_spec j i).
         -- rewrite <- Hc. apply nth_error_zip_le. lia.
         -- apply Hin. rewrite nth_error_zip_gt in Hc by lia. eapply nth_error_In. eassumption.
@@ -441,9 +480,9 @@ Qed.
 
 (* Add: Push then Next, for each value *)
 Lemma sim_add : forall vs h cs l ps k a i, R (h, cs) (l, ps) ->
-  nth_error cs k = Some a -> nth_error ps k = Some (At i) ->
+  nth_error cs k = Some (Ptr a) -> nth_error ps k = Some (At i) ->
   exists h' a', cur_add T vs (h, a) = Ok tt (h', a') /\
-    R (h', set_nth cs k a') (fst (aadd T k vs (l, ps))) /\ snd (aadd T k vs (l, ps)) = RUnit.
+    R (h', set_nth cs k (Ptr a')) (fst (aadd T k vs (l, ps))) /\ snd (aadd T k vs (l, ps)) = RUnit.
 Proof.
   induction vs as [|v vs IH]; intros h cs l ps k a i HR Hk Hp.
   - exists h, a. cbn [cur_add aadd fst snd]. rewrite (set_nth_same _ _ _ Hk). auto.
@@ -460,7 +499,7 @@ Proof.
     { cbn [MlinkModel.step] in Enext; unfold on_cursor in Enext; cbn [fst snd] in Enext. rewrite Hk in Enext.
       destruct (cur_next T (h1, a)) as [r s|kd s| |] eqn:En; cbn [fst snd] in Enext.
       - inversion Enext as [[Hh Hs Ho]]. exists r. f_equal. destruct s as [hs ps0]. cbn [fst snd] in *. subst hs.
-        f_equal. pose proof (nth_error_set_nth cs k ps0 Hklen) as H1. rewrite Hs in H1.
+        f_equal. pose proof (nth_error_set_nth cs k (Ptr ps0) Hklen) as H1. rewrite Hs in H1.
         rewrite nth_error_set_nth in H1 by assumption. inversion H1. reflexivity.
       - exfalso. unfold anext, with_cursor in Enext. cbn [fst snd] in Enext. rewrite Hp1 in Enext.
         destruct (i <? length (ins T l i v)); cbn [snd] in Enext; inversion Enext.
@@ -471,7 +510,7 @@ Proof.
     destruct Enext' as [r Enext'].
     destruct (fst (anext T k (ins T l i v, map (after_push i) ps))) as [l2 ps2] eqn:Es2.
     cbn [fst snd] in Hp2.
-    destruct (IH h1 (set_nth cs k a2) l2 ps2 k a2 i2 HR2 (nth_error_set_nth _ _ _ Hklen) Hp2) as [h' [a' [Eadd [HR' Hout]]]].
+    destruct (IH h1 (set_nth cs k (Ptr a2)) l2 ps2 k a2 i2 HR2 (nth_error_set_nth _ _ _ Hklen) Hp2) as [h' [a' [Eadd [HR' Hout]]]].
     exists h', a'. split; [|split].
     + cbn [cur_add]. replace (called add_ncalls_push) with true by reflexivity.
       replace (called add_ncalls_next) with true by reflexivity.
@@ -485,7 +524,7 @@ Qed.
 
 Lemma R_new_cursor : forall h cs l ps c a' j, wf h (0 :: c) -> l = map (vl h) c ->
   Forall2 (crel h (0 :: c)) cs ps -> nth_error (0 :: c) j = Some a' ->
-  R (h, cs ++ [a']) (l, ps ++ [At j]).
+  R (h, cs ++ [Ptr a']) (l, ps ++ [At j]).
 Proof.
   intros h cs l ps c a' j Hwf Hl HF Hn. exists (0 :: c). cbn [fst snd tl]. split; [assumption|]. split; [assumption|].
   apply Forall2_snoc; [assumption|]. split; [|assumption].
@@ -500,13 +539,16 @@ Proof.
   pose proof HR as [ch [Hwf [Hl HF]]]. cbn [fst snd] in Hwf, Hl, HF.
   destruct (wf_head _ _ _ Hwf) as [c ->]. cbn [tl] in Hl.
   assert (Hlen : length l = length c) by (rewrite Hl, map_length; reflexivity).
-  destruct o as [n| | |f|k|k v|k|k|k v|k vs|k|k| |n|f| |].
+  destruct o as [n| | |f|k|k j| |k|k v|k|k|k v|k vs|k|k| |n|f| |].
   - (* At *)
     cbn [MlinkModel.step MlinkSpec.astep fst snd].
     destruct (Z.ltb_spec n 0) as [Hn|Hn].
     + rewrite (list_at_neg T h c Hwf n Hn). cbn [mk_cursor fst snd]. split; [assumption|reflexivity].
     + destruct (list_at_ok T zero h c Hwf n Hn) as [a' [E Hnth]]. rewrite E. cbn [mk_cursor fst snd].
-      split; [|reflexivity]. rewrite Hlen. eapply R_new_cursor; eassumption.
+      split; [|reflexivity]. rewrite Hlen.
+      replace (if (n <? Z.of_nat (length c))%Z then Z.to_nat n else length c) with (Nat.min (Z.to_nat n) (length c))
+        by (destruct (Z.ltb_spec n (Z.of_nat (length c))); lia).
+      eapply R_new_cursor; eassumption.
   - (* Last *)
     cbn [MlinkModel.step MlinkSpec.astep fst snd].
     destruct (list_last_ok T zero h c Hwf) as [a' [E Hnth]]. rewrite E. cbn [mk_cursor fst snd].
@@ -519,9 +561,29 @@ Proof.
     cbn [MlinkModel.step MlinkSpec.astep fst snd].
     destruct (list_find_ok T zero h c Hwf f) as [a' [E Hnth]]. rewrite E. cbn [mk_cursor fst snd].
     split; [|reflexivity]. rewrite Hl. eapply R_new_cursor; try eassumption. reflexivity.
+  - (* Copy *)
+    cbn [MlinkModel.step MlinkSpec.astep fst snd].
+    destruct (nth_error cs k) as [c0|] eqn:Hk.
+    + destruct (Forall2_nth _ _ _ _ _ _ _ HF Hk) as [p [Hp Hc]]. rewrite Hp. cbn [fst snd]. split; [|reflexivity].
+      exists (0 :: c). cbn [fst snd tl]. split; [assumption|]. split; [assumption|]. apply Forall2_snoc; assumption.
+    + rewrite (Hcur k Hk). auto.
+  - (* Assign *)
+    cbn [MlinkModel.step MlinkSpec.astep fst snd].
+    destruct (nth_error cs k) as [ck|] eqn:Hk.
+    + destruct (Forall2_nth _ _ _ _ _ _ _ HF Hk) as [pk [Hpk _]]. rewrite Hpk.
+      destruct (nth_error cs j) as [cj|] eqn:Hj.
+      * destruct (Forall2_nth _ _ _ _ _ _ _ HF Hj) as [pj [Hpj Hcj]]. rewrite Hpj. cbn [fst snd]. split; [|reflexivity].
+        exists (0 :: c). cbn [fst snd tl]. split; [assumption|]. split; [assumption|]. apply Forall2_set; assumption.
+      * rewrite (Hcur j Hj). auto.
+    + rewrite (Hcur k Hk). auto.
+  - (* NilCursor *)
+    cbn [MlinkModel.step MlinkSpec.astep fst snd]. split; [|reflexivity].
+    exists (0 :: c). cbn [fst snd tl]. split; [assumption|]. split; [assumption|]. apply Forall2_snoc; [assumption|reflexivity].
   - (* Get *)
-    destruct (nth_error cs k) as [a|] eqn:Hk.
-    + destruct (R_cursor _ _ _ _ _ _ HR Hk) as [p [Hp [Ha Hc]]]. destruct p as [i|].
+    destruct (nth_error cs k) as [[|a]|] eqn:Hk.
+    + cbn [MlinkModel.step MlinkSpec.astep]; unfold on_cursor; cbn [fst snd]. unfold with_cursor. cbn [snd].
+      rewrite Hk, (R_nil_cursor _ _ _ _ _ HR Hk). auto.
+    + destruct (R_cursor _ _ _ _ _ _ HR Hk) as [p [Hp [Ha Hc]]]. destruct p as [i| |]; [| |contradiction].
       * destruct Hc as [pre [suf [Hwf' [Hi [Hl' HF']]]]].
         rewrite (sim_get h cs l ps k a i pre suf (conj Hk (conj Hp (conj Hwf' (conj Hi (conj Hl' HF')))))).
         cbn [MlinkSpec.astep fst snd]. unfold with_cursor. cbn [snd]. rewrite Hp. cbn [fst snd]. auto.
@@ -530,8 +592,10 @@ Proof.
     + cbn [MlinkModel.step MlinkSpec.astep]; unfold on_cursor; cbn [fst snd]. unfold with_cursor. cbn [snd].
       rewrite Hk, (Hcur k Hk). auto.
   - (* Set *)
-    destruct (nth_error cs k) as [a|] eqn:Hk.
-    + destruct (R_cursor _ _ _ _ _ _ HR Hk) as [p [Hp [Ha Hc]]]. destruct p as [i|].
+    destruct (nth_error cs k) as [[|a]|] eqn:Hk.
+    + cbn [MlinkModel.step MlinkSpec.astep]; unfold on_cursor; cbn [fst snd]. unfold with_cursor. cbn [snd].
+      rewrite Hk, (R_nil_cursor _ _ _ _ _ HR Hk). auto.
+    + destruct (R_cursor _ _ _ _ _ _ HR Hk) as [p [Hp [Ha Hc]]]. destruct p as [i| |]; [| |contradiction].
       * destruct Hc as [pre [suf [Hwf' [Hi [Hl' HF']]]]].
         destruct (sim_set h cs l ps k a i pre suf (conj Hk (conj Hp (conj Hwf' (conj Hi (conj Hl' HF'))))) v) as [h' [l' [E1 [E2 HR']]]].
         rewrite E1, E2. cbn [fst snd]. auto.
@@ -540,8 +604,10 @@ Proof.
     + cbn [MlinkModel.step MlinkSpec.astep]; unfold on_cursor; cbn [fst snd]. unfold with_cursor. cbn [snd].
       rewrite Hk, (Hcur k Hk). auto.
   - (* AtEnd *)
-    destruct (nth_error cs k) as [a|] eqn:Hk.
-    + destruct (R_cursor _ _ _ _ _ _ HR Hk) as [p [Hp [Ha Hc]]]. destruct p as [i|].
+    destruct (nth_error cs k) as [[|a]|] eqn:Hk.
+    + cbn [MlinkModel.step MlinkSpec.astep]; unfold on_cursor; cbn [fst snd]. unfold with_cursor. cbn [snd].
+      rewrite Hk, (R_nil_cursor _ _ _ _ _ HR Hk). auto.
+    + destruct (R_cursor _ _ _ _ _ _ HR Hk) as [p [Hp [Ha Hc]]]. destruct p as [i| |]; [| |contradiction].
       * destruct Hc as [pre [suf [Hwf' [Hi [Hl' HF']]]]].
         rewrite (sim_at_end h cs l ps k a i pre suf (conj Hk (conj Hp (conj Hwf' (conj Hi (conj Hl' HF')))))).
         cbn [MlinkSpec.astep fst snd]. unfold with_cursor. cbn [snd]. rewrite Hp. cbn [fst snd]. auto.
@@ -550,8 +616,10 @@ Proof.
     + cbn [MlinkModel.step MlinkSpec.astep]; unfold on_cursor; cbn [fst snd]. unfold with_cursor. cbn [snd].
       rewrite Hk, (Hcur k Hk). auto.
   - (* Next *)
-    destruct (nth_error cs k) as [a|] eqn:Hk.
-    + destruct (R_cursor _ _ _ _ _ _ HR Hk) as [p [Hp [Ha Hc]]]. destruct p as [i|].
+    destruct (nth_error cs k) as [[|a]|] eqn:Hk.
+    + cbn [MlinkModel.step MlinkSpec.astep]; unfold on_cursor; cbn [fst snd]. unfold anext, with_cursor. cbn [snd].
+      rewrite Hk, (R_nil_cursor _ _ _ _ _ HR Hk). auto.
+    + destruct (R_cursor _ _ _ _ _ _ HR Hk) as [p [Hp [Ha Hc]]]. destruct p as [i| |]; [| |contradiction].
       * destruct Hc as [pre [suf [Hwf' [Hi [Hl' HF']]]]].
         destruct (sim_next h cs l ps k a i pre suf (conj Hk (conj Hp (conj Hwf' (conj Hi (conj Hl' HF')))))) as [a' [i' [E [HR' _]]]].
         rewrite E. cbn [MlinkSpec.astep fst snd]. auto.
@@ -560,8 +628,10 @@ Proof.
     + cbn [MlinkModel.step MlinkSpec.astep]; unfold on_cursor; cbn [fst snd]. unfold anext, with_cursor. cbn [snd].
       rewrite Hk, (Hcur k Hk). auto.
   - (* Push *)
-    destruct (nth_error cs k) as [a|] eqn:Hk.
-    + destruct (R_cursor _ _ _ _ _ _ HR Hk) as [p [Hp [Ha Hc]]]. destruct p as [i|].
+    destruct (nth_error cs k) as [[|a]|] eqn:Hk.
+    + cbn [MlinkModel.step MlinkSpec.astep]; unfold on_cursor; cbn [fst snd]. unfold apush, with_cursor. cbn [snd].
+      rewrite Hk, (R_nil_cursor _ _ _ _ _ HR Hk). auto.
+    + destruct (R_cursor _ _ _ _ _ _ HR Hk) as [p [Hp [Ha Hc]]]. destruct p as [i| |]; [| |contradiction].
       * destruct Hc as [pre [suf [Hwf' [Hi [Hl' HF']]]]].
         destruct (sim_push h cs l ps k a i pre suf (conj Hk (conj Hp (conj Hwf' (conj Hi (conj Hl' HF'))))) v) as [h' [E [_ HR']]].
         rewrite E. cbn [MlinkSpec.astep fst snd]. unfold apush, with_cursor. cbn [fst snd]. rewrite Hp. cbn [fst snd]. auto.
@@ -570,8 +640,11 @@ Proof.
     + cbn [MlinkModel.step MlinkSpec.astep]; unfold on_cursor; cbn [fst snd]. unfold apush, with_cursor. cbn [snd].
       rewrite Hk, (Hcur k Hk). auto.
   - (* Add *)
-    destruct (nth_error cs k) as [a|] eqn:Hk.
-    + destruct (R_cursor _ _ _ _ _ _ HR Hk) as [p [Hp [Ha Hc]]]. destruct p as [i|].
+    destruct (nth_error cs k) as [[|a]|] eqn:Hk.
+    + cbn [MlinkModel.step MlinkSpec.astep]; unfold on_cursor; cbn [fst snd].
+      rewrite Hk, (R_nil_cursor _ _ _ _ _ HR Hk). destruct vs as [|v vs]; [cbn [aadd fst snd]; auto|].
+      cbn [aadd]. unfold apush, with_cursor. cbn [fst snd]. rewrite (R_nil_cursor _ _ _ _ _ HR Hk). auto.
+    + destruct (R_cursor _ _ _ _ _ _ HR Hk) as [p [Hp [Ha Hc]]]. destruct p as [i| |]; [| |contradiction].
       * destruct (sim_add vs h cs l ps k a i HR Hk Hp) as [h' [a' [E [HR' Hout]]]].
         cbn [MlinkModel.step MlinkSpec.astep]; unfold on_cursor; cbn [fst snd]. rewrite Hk, Hp, E. cbn [fst snd].
         rewrite Hout. auto.
@@ -583,8 +656,10 @@ Proof.
     + cbn [MlinkModel.step MlinkSpec.astep]; unfold on_cursor; cbn [fst snd].
       rewrite Hk, (Hcur k Hk). auto.
   - (* Remove *)
-    destruct (nth_error cs k) as [a|] eqn:Hk.
-    + destruct (R_cursor _ _ _ _ _ _ HR Hk) as [p [Hp [Ha Hc]]]. destruct p as [i|].
+    destruct (nth_error cs k) as [[|a]|] eqn:Hk.
+    + cbn [MlinkModel.step MlinkSpec.astep]; unfold on_cursor; cbn [fst snd]. unfold with_cursor. cbn [snd].
+      rewrite Hk, (R_nil_cursor _ _ _ _ _ HR Hk). auto.
+    + destruct (R_cursor _ _ _ _ _ _ HR Hk) as [p [Hp [Ha Hc]]]. destruct p as [i| |]; [| |contradiction].
       * destruct Hc as [pre [suf [Hwf' [Hi [Hl' HF']]]]].
         destruct (sim_remove h cs l ps k a i pre suf (conj Hk (conj Hp (conj Hwf' (conj Hi (conj Hl' HF')))))) as [h' [s' [E1 [E2 HR']]]].
         rewrite E1, E2. cbn [fst snd]. auto.
@@ -593,8 +668,10 @@ Proof.
     + cbn [MlinkModel.step MlinkSpec.astep]; unfold on_cursor; cbn [fst snd]. unfold with_cursor. cbn [snd].
       rewrite Hk, (Hcur k Hk). auto.
   - (* Truncate *)
-    destruct (nth_error cs k) as [a|] eqn:Hk.
-    + destruct (R_cursor _ _ _ _ _ _ HR Hk) as [p [Hp [Ha Hc]]]. destruct p as [i|].
+    destruct (nth_error cs k) as [[|a]|] eqn:Hk.
+    + cbn [MlinkModel.step MlinkSpec.astep]; unfold on_cursor; cbn [fst snd]. unfold with_cursor. cbn [snd].
+      rewrite Hk, (R_nil_cursor _ _ _ _ _ HR Hk). auto.
+    + destruct (R_cursor _ _ _ _ _ _ HR Hk) as [p [Hp [Ha Hc]]]. destruct p as [i| |]; [| |contradiction].
       * destruct Hc as [pre [suf [Hwf' [Hi [Hl' HF']]]]].
         destruct (sim_truncate h cs l ps k a i pre suf (conj Hk (conj Hp (conj Hwf' (conj Hi (conj Hl' HF')))))) as [h' [E HR']].
         rewrite E. cbn [MlinkSpec.astep fst snd]. unfold with_cursor. cbn [snd]. rewrite Hp. cbn [fst snd]. auto.
@@ -607,8 +684,9 @@ Proof.
     destruct (clear_ok T zero h c Hwf) as [h' [E [Hwf' [Hlen' [Hin [Hsame Hv]]]]]].
     rewrite E. cbn [on_list fst snd]. split; [|reflexivity].
     exists [0]. cbn [fst snd tl map]. split; [assumption|]. split; [reflexivity|].
-    eapply Forall2_map_r; [|exact HF]. intros b0 p [Hb Hc]. split; [lia|].
-    destruct p as [j|]; cbn [after_truncate].
+    eapply Forall2_map_r; [|exact HF]. apply crel_lift; [reflexivity|].
+    intros b0 p Hnp [Hb Hc]. split; [lia|].
+    destruct p as [j| |]; [| |exfalso; apply Hnp; reflexivity]; cbn [after_truncate].
     + destruct (Nat.leb_spec j 0).
       * replace j with 0 in * by lia. cbn [nth_error] in *. assumption.
       * apply Hin. destruct j as [|j]; [lia|]. cbn [nth_error] in Hc. eapply nth_error_In. eassumption.
@@ -619,7 +697,7 @@ Proof.
   - (* Peek *)
     cbn [MlinkModel.step MlinkSpec.astep fst snd].
     destruct (list_peek_ok T zero h c Hwf n) as [s' [E Hs]]. rewrite E, <- Hl.
-    unfold apeek. destruct (n <? 0)%Z; [|destruct (Z.to_nat n <? length l)];
+    unfold apeek. destruct (n <? 0)%Z; [|destruct (n <? Z.of_nat (length l))%Z];
       cbn [on_list fst snd]; rewrite Hs; auto.
   - (* Each *)
     cbn [MlinkModel.step MlinkSpec.astep fst snd].
@@ -658,20 +736,21 @@ Theorem reachable_R : forall ops, R (run_state T zero (init T zero) ops) (arun_s
 Proof. intros. apply run_state_refines. apply R_init. Qed.
 
 (* the reference never reports a hang or a dangling address *)
-Lemma aadd_out : forall vs k s, snd (aadd T k vs s) = RUnit \/ snd (aadd T k vs s) = RPanic InvalidCursor \/ snd (aadd T k vs s) = RNoCursor.
+Lemma aadd_out : forall vs k s, snd (aadd T k vs s) = RUnit \/ snd (aadd T k vs s) = RPanic InvalidCursor \/
+  snd (aadd T k vs s) = RPanic NilDeref \/ snd (aadd T k vs s) = RNoCursor.
 Proof.
   induction vs as [|v vs IH]; intros k s; cbn [aadd]; [auto|].
-  unfold apush, with_cursor. destruct (nth_error (snd s) k) as [[i|]|]; cbn [snd]; auto.
+  unfold apush, with_cursor. destruct (nth_error (snd s) k) as [[i| |]|]; cbn [snd]; auto.
 Qed.
 
 Lemma astep_out : forall s o, snd (astep s o) <> RHang /\ snd (astep s o) <> RBad.
 Proof.
   intros [l ps] o. destruct o; cbn [astep MlinkSpec.astep fst snd]; unfold anext, apush, with_cursor, apeek; cbn [fst snd];
     repeat match goal with
-    | |- context [match nth_error ?l ?k with _ => _ end] => destruct (nth_error l k) as [[?|]|]
+    | |- context [match nth_error ?l ?k with _ => _ end] => destruct (nth_error l k) as [[?| |]|]
     | |- context [if ?b then _ else _] => destruct b
     end; cbn [snd]; try (split; discriminate).
-  all: destruct (aadd_out vs k (l, ps)) as [H|[H|H]]; rewrite H; split; discriminate.
+  all: destruct (aadd_out vs k (l, ps)) as [H|[H|[H|H]]]; rewrite H; split; discriminate.
 Qed.
 
 Theorem never_hangs : forall ops, ~ In RHang (run T zero (init T zero) ops) /\ ~ In RBad (run T zero (init T zero) ops).
@@ -692,11 +771,11 @@ Definition uses_cursor (o : op T) (k : nat) : Prop :=
   end.
 
 Theorem stale_refuses : forall h cs k a o,
-  nth_error cs k = Some a -> a < length h -> lnk h a = Ptr a -> uses_cursor o k ->
+  nth_error cs k = Some (Ptr a) -> a < length h -> lnk h a = Ptr a -> uses_cursor o k ->
   step (h, cs) o = ((h, cs), RPanic InvalidCursor).
 Proof.
   intros h cs k a o Hk Ha Hs Hu.
-  destruct o as [n| | |f|k'|k' v|k'|k'|k' v|k' vs|k'|k'| |n|f| |]; cbn [uses_cursor] in Hu; try contradiction;
+  destruct o as [n| | |f|k'|k' j'| |k'|k' v|k'|k'|k' v|k' vs|k'|k'| |n|f| |]; cbn [uses_cursor] in Hu; try contradiction;
     try (subst k'; cbn [MlinkModel.step]; unfold on_cursor; cbn [fst snd]; rewrite Hk).
   - rewrite (stale_get T zero h a Ha Hs). cbn [fst snd]. rewrite (set_nth_same _ _ _ Hk). reflexivity.
   - rewrite (stale_set T zero h a Ha Hs). cbn [fst snd]. rewrite (set_nth_same _ _ _ Hk). reflexivity.
@@ -717,15 +796,97 @@ Proof.
   intros ops k o Hst Hu. pose proof (reachable_R ops) as HR.
   destruct (run_state T zero (init T zero) ops) as [h cs]. destruct (arun_state T zero (ainit T) ops) as [l ps].
   cbn [snd] in Hst.
-  destruct (nth_error cs k) as [a|] eqn:Hk.
+  destruct (nth_error cs k) as [[|a]|] eqn:Hk.
+  - pose proof (R_nil_cursor _ _ _ _ _ HR Hk) as Hn. rewrite Hn in Hst. discriminate.
   - destruct (R_cursor _ _ _ _ _ _ HR Hk) as [p [Hp [Ha Hc]]]. rewrite Hst in Hp. inversion Hp. subst p.
     eapply stale_refuses; eassumption.
   - pose proof (R_no_cursor _ _ _ _ _ HR Hk) as Hn. rewrite Hn in Hst. discriminate.
 Qed.
 
+(* ---- a Cursor that was never positioned (nil pointer, or zero value: pred == nil) ---- *)
+
+Theorem nil_cursor_refuses : forall h cs k o,
+  nth_error cs k = Some Nil -> uses_cursor o k ->
+  step (h, cs) o = ((h, cs), RPanic NilDeref).
+Proof.
+  intros h cs k o Hk Hu.
+  destruct o as [n| | |f|k'|k' j'| |k'|k' v|k'|k'|k' v|k' vs|k'|k'| |n|f| |]; cbn [uses_cursor] in Hu; try contradiction;
+    try (subst k'; cbn [MlinkModel.step]; unfold on_cursor; cbn [fst snd]; rewrite Hk; reflexivity).
+  destruct vs as [|v vs]; [contradiction|]. subst k'. cbn [MlinkModel.step]; unfold on_cursor; cbn [fst snd]. rewrite Hk. reflexivity.
+Qed.
+
+Theorem nil_cursor_panics : forall ops k o,
+  nth_error (snd (arun_state T zero (ainit T) ops)) k = Some NoPred -> uses_cursor o k ->
+  step (run_state T zero (init T zero) ops) o = (run_state T zero (init T zero) ops, RPanic NilDeref).
+Proof.
+  intros ops k o Hst Hu. pose proof (reachable_R ops) as HR.
+  destruct (run_state T zero (init T zero) ops) as [h cs]. destruct (arun_state T zero (ainit T) ops) as [l ps].
+  cbn [snd] in Hst.
+  destruct (nth_error cs k) as [[|a]|] eqn:Hk.
+  - apply nil_cursor_refuses with (k := k); assumption.
+  - destruct (R_cursor _ _ _ _ _ _ HR Hk) as [p [Hp [Ha Hc]]]. rewrite Hst in Hp. inversion Hp. subst p. contradiction.
+  - pose proof (R_no_cursor _ _ _ _ _ HR Hk) as Hn. rewrite Hn in Hst. discriminate.
+Qed.
+
+(* the only nil dereference in any history is the use of such a cursor: the reference reports
+   NilDeref exactly there (with_cursor), and the model agrees with the reference *)
+
+(* ---- the property's own wording: a cursor left positioned after a removed or truncated
+   element refuses every further use ---- *)
+
+Lemma run_state_app : forall ops1 ops2 m, run_state T zero m (ops1 ++ ops2) = run_state T zero (run_state T zero m ops1) ops2.
+Proof. induction ops1 as [|o ops1 IH]; intros ops2 m; cbn [app run_state]; [reflexivity|apply IH]. Qed.
+
+Lemma arun_state_app : forall ops1 ops2 s, arun_state T zero s (ops1 ++ ops2) = arun_state T zero (arun_state T zero s ops1) ops2.
+Proof. induction ops1 as [|o ops1 IH]; intros ops2 s; cbn [app arun_state]; [reflexivity|apply IH]. Qed.
+
+(* cursor kr removes the element at index i (it exists); any cursor k that sat at index i+1 --
+   just after the removed element -- then panics on every use, and the state stays what it was
+   right after the removal *)
+Theorem removed_neighbour_panics : forall ops kr k i o,
+  let a := arun_state T zero (ainit T) ops in
+  nth_error (snd a) kr = Some (At i) -> i < length (fst a) ->
+  nth_error (snd a) k = Some (At (S i)) -> uses_cursor o k ->
+  let m' := run_state T zero (init T zero) (ops ++ [ORemove kr]) in
+  step m' o = (m', RPanic InvalidCursor).
+Proof.
+  intros ops kr k i o a Hkr Hi Hk Hu m'. unfold m'. apply stale_cursor_panics with (k := k); [|assumption].
+  rewrite arun_state_app. fold a. cbn [arun_state MlinkSpec.astep]. unfold with_cursor. destruct a as [l ps]. cbn [fst snd] in *.
+  rewrite Hkr. replace (i <? length l) with true by (symmetry; apply Nat.ltb_lt; assumption). cbn [fst snd].
+  rewrite nth_error_map, Hk. cbn [option_map after_remove].
+  replace (S i <=? i) with false by (symmetry; apply Nat.leb_gt; lia). rewrite Nat.eqb_refl. reflexivity.
+Qed.
+
+(* cursor kt truncates at index i; any cursor k that sat at an index j > i -- after a truncated
+   element, the end position included -- then panics on every use, state unchanged *)
+Theorem truncated_tail_panics : forall ops kt k i j o,
+  let a := arun_state T zero (ainit T) ops in
+  nth_error (snd a) kt = Some (At i) -> nth_error (snd a) k = Some (At j) -> i < j -> uses_cursor o k ->
+  let m' := run_state T zero (init T zero) (ops ++ [OTruncate kt]) in
+  step m' o = (m', RPanic InvalidCursor).
+Proof.
+  intros ops kt k i j o a Hkt Hk Hij Hu m'. unfold m'. apply stale_cursor_panics with (k := k); [|assumption].
+  rewrite arun_state_app. fold a. cbn [arun_state MlinkSpec.astep]. unfold with_cursor. destruct a as [l ps]. cbn [fst snd] in *.
+  rewrite Hkt. cbn [fst snd]. rewrite nth_error_map, Hk. cbn [option_map after_truncate].
+  replace (j <=? i) with false by (symmetry; apply Nat.leb_gt; lia). reflexivity.
+Qed.
+
+(* List.Clear: every cursor at an index j > 0 is left after a discarded element *)
+Theorem cleared_panics : forall ops k j o,
+  let a := arun_state T zero (ainit T) ops in
+  nth_error (snd a) k = Some (At j) -> 0 < j -> uses_cursor o k ->
+  let m' := run_state T zero (init T zero) (ops ++ [OClear]) in
+  step m' o = (m', RPanic InvalidCursor).
+Proof.
+  intros ops k j o a Hk Hj Hu m'. unfold m'. apply stale_cursor_panics with (k := k); [|assumption].
+  rewrite arun_state_app. fold a. cbn [arun_state MlinkSpec.astep]. destruct a as [l ps]. cbn [fst snd] in *.
+  rewrite nth_error_map, Hk. cbn [option_map after_truncate].
+  replace (j <=? 0) with false by (symmetry; apply Nat.leb_gt; lia). reflexivity.
+Qed.
+
 (* the code before the repair: Truncate through such a cursor never returns (F7) *)
 Theorem pinned_truncate_hangs : forall h cs k a,
-  nth_error cs k = Some a -> a < length h -> lnk h a = Ptr a ->
+  nth_error cs k = Some (Ptr a) -> a < length h -> lnk h a = Ptr a ->
   step_pinned T zero (h, cs) (OTruncate k) = ((h, cs), RHang).
 Proof.
   intros h cs k a Hk Ha Hs. cbn [step_pinned]; unfold on_cursor; cbn [fst snd]. rewrite Hk.
